@@ -439,6 +439,18 @@ func checkTaggedHashShapeAs(c *Ctx, r *Run, rule string) {
 			if b, ok := x.Call.Value.(*ssa.Builtin); ok && b.Name() == "append" && len(x.Call.Args) == 2 {
 				return append(tokenOf(x.Call.Args[0]), tokenOf(x.Call.Args[1])...)
 			}
+		case *ssa.MakeSlice:
+			// an empty buffer to append to (whatever its capacity) contributes no bytes
+			if k, isK := constInt(x.Len); isK && k == 0 {
+				return nil
+			}
+		}
+		if sl, isSl := v.(*ssa.Slice); isSl && sl.High != nil {
+			if k, isK := constInt(sl.High); isK && k == 0 {
+				if _, fresh := sl.X.(*ssa.Alloc); fresh {
+					return nil
+				}
+			}
 		}
 		return []string{"?" + v.Name()}
 	}
